@@ -160,6 +160,8 @@ Eval(e, env, focus) ==
     [] e.k = "field" ->
          LET i == Eval(e.in, env, focus) IN
          IF Bad(i) THEN i
+         ELSE IF e.name = "value" /\ \E j \in 1..Len(i.items) : i.items[j].t = "el" /\ i.items[j].r # 0 /\ IsTemporalValue(i.items[j].v)
+              THEN EAny     \* .value of a date/time primitive: the System value or its string rendering (C02 latitude)
          ELSE LET r == FieldStep(env.forest, env.sch, i.items, e.name)
               IN IF r.k = "ok" THEN EOk(r.items) ELSE IF r.k = "err" THEN EErr ELSE EAny
     [] e.k = "idx" ->
